@@ -155,3 +155,10 @@ Proof.
     eapply PeanoNat.Nat.le_lt_trans; [|exact H]. do 3 apply le_n_S. apply PeanoNat.Nat.le_0_l.
   - destruct ft as [|[|[|f]]]; reflexivity.
 Qed.
+
+(* token layer, exponent sign: the UAI reader's float token consumes the WHOLE printed token for both exponent
+   signs ('8.659340042399374e+16' as well as '1e-05'); a token grammar without the explicit '+' accepts a printed
+   shape exactly when it has no '+' exponent, i.e. it cuts every value >= 1e16 after the mantissa *)
+Lemma uai_plus_exponent_upto24_l : forall s, shape_within 24 s ->
+  uai_ok (render s) = true /\ uai_noplus_ok (render s) = negb (has_plus_exponent s).
+Proof. exact plus_exponent_upto24. Qed.
